@@ -99,6 +99,11 @@ func checkC01(c *Ctx) {
 	c03Tables(c)
 	c03Formulas(c)
 	c03Special(c)
+	// e = SM3(ZA || M): length counting and padding of the hash (the rules of C04) decide which messages and user IDs
+	// get the prescribed digest
+	if w, sm := c.Fn("sm3", "(*SM3).Write"), c.Fn("sm3", "(*SM3).Sum"); w != nil && sm != nil {
+		c04LenPad(c, w, sm)
+	}
 	noGlobalWrites(c, "FX-C01-pure", [][2]string{{"sm2", "Sm2Sign"}, {"sm2", "Sm2Verify"}, {"sm2", "(*PrivateKey).Sign"}, {"sm2", "(*PublicKey).Verify"}, {"sm2", "Verify"}},
 		"a signature (or a verdict) depends on other calls — e.g. a DER buffer taken from a pool and returned to it is overwritten by the next Sign")
 	fixedWidthHashed(c, "P-WIDTH-hash")
